@@ -1,0 +1,135 @@
+//go:build verif
+
+// Package verifhook provides pause points and event logging used by external
+// verification machinery. This is the instrumented variant, selected by the
+// "verif" build tag.
+//
+// Pause points are configured either in-process with Set, or through the
+// environment variable VERIF_HOOKS, a ';'-separated list of
+//
+//	point=sleep:<ms>         sleep at the point
+//	point=waitfile:<path>    block until <path> exists (polling, at most 20 s)
+//	point=touch:<path>       create <path>
+//	point=exit:<code>        exit the process
+//
+// Several actions for the same point run in the order given. Events are
+// appended as JSON lines to the file named by VERIF_EVENT_LOG, one write(2)
+// per line on a descriptor opened with O_APPEND, so that lines from several
+// processes interleave without tearing.
+package verifhook
+
+import (
+	"encoding/json"
+	"os"
+	"strconv"
+	"strings"
+	"sync"
+	"sync/atomic"
+	"syscall"
+	"time"
+)
+
+type action struct{ kind, arg string }
+
+var (
+	mu       sync.Mutex
+	handler  func(point string)
+	envOnce  sync.Once
+	envHooks map[string][]action
+	logOnce  sync.Once
+	logFile  *os.File
+	seq      atomic.Uint64
+)
+
+// Set installs an in-process handler called at every point. Passing nil
+// removes it.
+func Set(f func(point string)) {
+	mu.Lock()
+	handler = f
+	mu.Unlock()
+}
+
+func parseEnv() {
+	envHooks = map[string][]action{}
+	for _, item := range strings.Split(os.Getenv("VERIF_HOOKS"), ";") {
+		point, rest, ok := strings.Cut(strings.TrimSpace(item), "=")
+		if !ok {
+			continue
+		}
+		kind, arg, _ := strings.Cut(rest, ":")
+		envHooks[point] = append(envHooks[point], action{kind, arg})
+	}
+}
+
+// At marks a named point in the code.
+func At(point string) {
+	mu.Lock()
+	h := handler
+	mu.Unlock()
+	if h != nil {
+		h(point)
+	}
+	envOnce.Do(parseEnv)
+	for _, a := range envHooks[point] {
+		switch a.kind {
+		case "sleep":
+			ms, _ := strconv.Atoi(a.arg)
+			time.Sleep(time.Duration(ms) * time.Millisecond)
+		case "waitfile":
+			deadline := time.Now().Add(20 * time.Second)
+			for time.Now().Before(deadline) {
+				if _, err := os.Lstat(a.arg); err == nil {
+					break
+				}
+				time.Sleep(2 * time.Millisecond)
+			}
+		case "touch":
+			if f, err := os.Create(a.arg); err == nil {
+				f.Close()
+			}
+		case "exit":
+			code, _ := strconv.Atoi(a.arg)
+			os.Exit(code)
+		}
+	}
+}
+
+// Event records a named event and then behaves like At(point). A value given
+// for the key "sock" is additionally resolved to the inode currently at that
+// path (key "ino", 0 if none).
+func Event(point string, kv ...any) {
+	logOnce.Do(func() {
+		if p := os.Getenv("VERIF_EVENT_LOG"); p != "" {
+			logFile, _ = os.OpenFile(p, os.O_CREATE|os.O_WRONLY|os.O_APPEND, 0o644)
+		}
+	})
+	if logFile != nil {
+		m := map[string]any{"point": point, "pid": os.Getpid(), "seq": seq.Add(1), "t": time.Now().UnixNano()}
+		for i := 0; i+1 < len(kv); i += 2 {
+			k, _ := kv[i].(string)
+			v := kv[i+1]
+			if e, ok := v.(error); ok {
+				if e == nil {
+					v = nil
+				} else {
+					v = e.Error()
+				}
+			}
+			m[k] = v
+			if k == "sock" {
+				var ino uint64
+				if p, ok := v.(string); ok {
+					var st syscall.Stat_t
+					if syscall.Lstat(p, &st) == nil {
+						ino = st.Ino
+					}
+				}
+				m["ino"] = ino
+			}
+		}
+		if b, err := json.Marshal(m); err == nil {
+			logFile.Write(append(b, '\n'))
+		}
+	}
+	At(point)
+}
